@@ -26,7 +26,7 @@ fn spec(t: Tier) -> Spec {
     Spec {
         id: "C03",
         level: "exploration",
-        rule: format!("every ordered forest of directories, files and links to a directory (walked under -P and -L) with <= {n} nodes (sibling names B,Z,_,a,a.b,é: byte order differs from case-folded order) x every subset of its directories (and the starting point) selected for pruning x 3 expression forms (path alternation before -prune -o -print; -print before the prune test; -name TEST -prune -o -print) x (pre-order | -depth | unreachable -delete, the latter two written before and after the expression holding -prune) x 5 depth windows x (-sorted: exact sequence | unsorted: multiset + parent/child order); file-system boundary slice: a tmpfs mounted on r/m inside the tree, -xdev and -mount, -prune on the mount point / on a sibling / before and after -print, -depth, -maxdepth 1 (the mount point is visited, nothing below it, its later siblings always); scale slice: one hand-built tree (sibling names of 1, 15, 16, 17, 32 and 33 bytes sharing 16-byte prefixes, a chain six directories deep, a link to a directory between later siblings, a directory of 40 files) with every single and every pair of directories/links pruned, every name, all forms and windows, pre-order/-depth/unreachable -delete, -sorted on/off, -P/-L; non-trivial = case with a non-empty prune set"),
+        rule: format!("every ordered forest of directories, files and links to a directory (walked under -P and -L) with <= {n} nodes (sibling names B,Z,_,a,a.b,é: byte order differs from case-folded order) x every subset of its directories (and the starting point) selected for pruning x 3 expression forms (path alternation before -prune -o -print; -print before the prune test; -name TEST -prune -o -print) x (pre-order | -depth | unreachable -delete, the latter two written before and after the expression holding -prune) x 5 depth windows x (-sorted: exact sequence | unsorted: multiset + parent/child order); file-system boundary slice: a tmpfs mounted on r/m inside the tree, -xdev and -mount, -prune on the mount point / on a sibling / before and after -print, -depth, -maxdepth 1 (the mount point is visited, nothing below it, its later siblings always); scale slice: one hand-built tree (sibling names of 1, 15, 16, 17, 32 and 33 bytes sharing 16-byte prefixes, a chain six directories deep, a link to a directory between later siblings, a directory of 40 files) with every single and every pair of directories/links pruned, every name, all forms and windows, pre-order/-depth/unreachable -delete, -sorted on/off, -P/-L; byte-wise slice: eleven sibling directories whose names are byte strings that are not all valid UTF-8 (0x80, truncated sequences, 0xff, U+FFFD itself) come out in byte order under -sorted (pre-order, -depth, -d, with a pruned sibling); -xdev slice: a tmpfs mounted inside the tree, also with several starting points on different file systems; non-trivial = case with a non-empty prune set"),
         bound: json!({"max_nodes": n, "forms": ["paths-prune-or-print", "print-then-prune", "name-prune-or-print"], "orders": ["pre", "-depth (spelled -d in half of the cases)", "unreachable -delete", "-depth after", "unreachable -delete after"], "windows": ["none","min1","max1","max2","min1 max2"]}),
         assumptions: vec!["-prune's truth value is true in both walk orders (the statement only fixes its effect on the walk)".into()],
         shards: 0,
